@@ -275,6 +275,50 @@ def run_harnesses(names, cfg=None, use_cache=True, playback=False, timeout=3000,
     return out
 
 
+def native_replay(h, cfg=None, timeout=2400):
+    """Kani's counterexample replayed against the REAL code: the harness is verified with --concrete-playback=inplace
+    (Kani writes a #[test] holding the concrete input values next to the harness), then `cargo kani playback` runs that
+    test natively. Returns dict(generated=bool, native_failed=bool|None, test=<source of the generated test>, output=tail)."""
+    cfg = cfg or load_config()
+    need = {"verif_kani_spec"}
+    for m in cfg["modules"]:
+        if re.search(r"\bfn\s+%s\s*\(" % re.escape(h), open(os.path.join(KANI_DIR, m["source"])).read()):
+            need.add(m["name"])
+    sub = dict(cfg, modules=[m for m in cfg["modules"] if m["name"] in need])
+    parents = set(m["parent"] for m in sub["modules"])
+    sub["contracts"] = [c for c in cfg.get("contracts", []) if c["file"] in parents]
+    d, report = make_scratch(sub)
+    out = {"generated": False, "native_failed": None, "test": None, "output": ""}
+    try:
+        env = dict(os.environ, CARGO_NET_OFFLINE="true")
+        env.pop("RUSTUP_TOOLCHAIN", None)
+        base = ["cargo", "kani", "-Z", "function-contracts", "-Z", "stubbing", "-Z", "concrete-playback"]
+        p = subprocess.run(base + ["--concrete-playback=inplace", "--harness", h, "-Z", "unstable-options", "--harness-timeout", "%ds" % (timeout // 2)],
+                           cwd=d, capture_output=True, text=True, env=env, timeout=timeout)
+        tests = []
+        for m in sub["modules"]:
+            f = os.path.join(d, _mod_file(m["parent"], m["name"]))
+            if os.path.exists(f):
+                tests += re.findall(r"(#\[test\]\s*\nfn (kani_concrete_playback_%s\w*)\(\)[\s\S]*?\n\})" % re.escape(h), open(f).read())
+        if not tests:
+            out["output"] = (p.stdout + p.stderr)[-1500:]
+            return out
+        out["generated"] = True
+        out["test"] = tests[0][0]
+        q = subprocess.run(["cargo", "kani", "playback", "-Z", "concrete-playback", "-Z", "function-contracts", "-Z", "stubbing", "--", tests[0][1]],
+                           cwd=d, capture_output=True, text=True, env=env, timeout=timeout)
+        txt = q.stdout + q.stderr
+        out["output"] = txt[-2500:]
+        m = re.search(r"test result: (\w+)\. (\d+) passed; (\d+) failed", txt)
+        if m:
+            out["native_failed"] = int(m.group(3)) > 0
+    except subprocess.TimeoutExpired:
+        out["output"] = "timeout"
+    finally:
+        shutil.rmtree(d, ignore_errors=True)
+    return out
+
+
 if __name__ == "__main__":
     import argparse
     ap = argparse.ArgumentParser()
@@ -282,7 +326,11 @@ if __name__ == "__main__":
     ap.add_argument("--no-cache", action="store_true")
     ap.add_argument("--playback", action="store_true")
     ap.add_argument("--keep", action="store_true")
+    ap.add_argument("--native-replay", action="store_true")
     a = ap.parse_args()
+    if a.native_replay:
+        print(json.dumps(native_replay(a.harness[0]), indent=1))
+        sys.exit(0)
     cfg = load_config()
     names = []
     for h in a.harness:
